@@ -64,7 +64,10 @@ LIB_GENERIC = {"zqg_gen"}
 LIB_PUBLIC = LIB_VARS | LIB_TYPES | LIB_SUBS | LIB_FUNS | LIB_GENERIC
 EXT_MEMBERS = {"zqc_three", "zqn_nested", "zqc_one", "zqc_two", "zqb_bind"}
 
-ACCESS = ["direct", "only_some", "rename", "via_public_mid", "via_private_mid", "none"]
+ACCESS = ["direct", "only_some", "rename", "via_public_mid", "via_private_mid", "none", "rename_clash", "rename_local"]
+# rename_clash: the renamed entity's declared name is also the name of a different entity imported from a second module;
+# rename_local: ... is also the name of a variable declared in the using scope itself
+TWO = "module zqtwo\n  implicit none\n  integer :: zqv_pub\nend module zqtwo\n"
 SCOPES = ["program", "module_procedure", "internal_procedure"]
 
 
@@ -83,13 +86,21 @@ def imported(access):
         return {"zqr_ren": ("var", "zqv_pub"), "zqt_ext": ("type", "zqt_ext")}
     if access == "via_private_mid":
         return {"zqv_mid": ("var", "zqv_mid")}
+    if access == "rename_clash":
+        return {"zqr_ren": ("var", "zqv_pub"), "zqv_pub": ("var", "zqtwo::zqv_pub")}
+    if access == "rename_local":
+        return {"zqr_ren": ("var", "zqv_pub")}
     return {}
 
 
 def build(access, scope):
     files = {"zqmod.f90": LIB}
     use = {"direct": "use zqmod", "only_some": "use zqmod, only: zqv_pub, zqt_ext, zqs_sub", "rename": "use zqmod, only: zqr_ren => zqv_pub, zqt_ext",
-           "via_public_mid": "use zqmid", "via_private_mid": "use zqmid", "none": None}[access]
+           "via_public_mid": "use zqmid", "via_private_mid": "use zqmid", "none": None,
+           "rename_clash": "use zqmod, only: zqr_ren => zqv_pub\n  use zqtwo, only: zqv_pub",
+           "rename_local": "use zqmod, only: zqr_ren => zqv_pub"}[access]
+    if access == "rename_clash":
+        files["zqtwo.f90"] = TWO
     if access in ("via_public_mid", "via_private_mid"):
         files["zqmid.f90"] = ("module zqmid\n  use zqmod\n  implicit none\n" + ("  private\n  public :: zqv_mid\n" if access == "via_private_mid" else "")
                               + "  integer :: zqv_mid\nend module zqmid\n")
@@ -107,12 +118,15 @@ def build(access, scope):
     if scope == "program":
         lines.append("program zqp_main")
         if u:
-            lines.append(u)
+            lines.extend(u.split("\n"))
         probe("use_only", "  use zqmod, only: ")
         probe("use", "  use ")
         lines.append("  implicit none")
         lines.append("  integer :: zql_var")
         names["zql_var"] = "var"
+        if access == "rename_local":
+            lines.append("  integer :: zqv_pub")
+            names["zqv_pub"] = "var"
         if has_ext:
             lines.append("  type(zqt_ext) :: zqo_obj")
             names["zqo_obj"] = "var"
@@ -133,12 +147,15 @@ def build(access, scope):
     else:
         lines.append("module zqu_user")
         if u:
-            lines.append(u)
+            lines.extend(u.split("\n"))
         lines.append("  implicit none")
         lines.append("  integer :: zqh_host")
         lines.append("contains")
         lines.append("  subroutine zqu_proc(zqa_arg)")
         lines.append("    integer :: zqa_arg")
+        if access == "rename_local":
+            lines.append("    integer :: zqv_pub")
+            names["zqv_pub"] = "var"
         lines.append("    integer :: zql_var")
         names.update({"zqh_host": "var", "zqa_arg": "var", "zql_var": "var", "zqu_proc": "sub", "zqu_user": "unit"})
         if has_ext:
@@ -193,7 +210,8 @@ def expected(ctx, names, access):
             elif c in ("fun",) or n == "zqo_obj":
                 opt.add(n)   # functions, and an object whose type has bound procedures (call obj%proc): tolerated
     elif ctx == "use":
-        req = {"zqmod"} | ({"zqmid"} if access in ("via_public_mid", "via_private_mid") else set())
+        req = {"zqmod"} | ({"zqmid"} if access in ("via_public_mid", "via_private_mid") else set()) | \
+            ({"zqtwo"} if access == "rename_clash" else set())
         opt = {"zqu_user"}
     elif ctx == "use_only":
         req = set(LIB_PUBLIC)
@@ -312,7 +330,7 @@ def chain_case(order, acc: Acc):
 
 
 def main(ctx):
-    ctx.rule = ("6 access variants x 3 using scopes; per workspace up to 9 contexts (body, body with text after the cursor, CALL, "
+    ctx.rule = ("8 access variants x 3 using scopes; per workspace up to 9 contexts (body, body with text after the cursor, CALL, "
                 "USE, USE ONLY:, TYPE(, CLASS(, obj%, obj%comp%) x every prefix from the stem 'zq' up to the full name of every "
                 "expected entity x lower/upper case. Expected label set known from the model; subroutine names in expressions, "
                 "functions after CALL and program-unit names are tolerated (neither required nor forbidden). Non-trivial = at "
